@@ -98,6 +98,22 @@ def name_sites():
         t = _t(N)
         return Qc.from_(t).select(t[N("c")]).for_update(of=(N("t"), N("u")))
 
+    # names that differ only in letter case are different identifiers: both must be written, each as given
+    @site("for-update-of-case-twins")
+    def _(N, V, Qc):
+        t = _t(N)
+        return Qc.from_(t).select(t[N("c")]).for_update(of=(N("t"), N("t~"), N("u")))
+
+    @site("columns-case-twins")
+    def _(N, V, Qc):
+        t = _t(N)
+        return Qc.from_(t).select(t[N("c")], t[N("c~")].as_(N("al"))).where(t[N("c~")] == 1).groupby(t[N("c")], t[N("c~")]).orderby(t[N("c~")])
+
+    @site("tables-case-twins")
+    def _(N, V, Qc):
+        t, u = P.Table(N("t")), P.Table(N("t~"))
+        return Qc.from_(t).join(u).on(t[N("k")] == u[N("k")]).select(t[N("c")], u[N("c")])
+
     @site("cte-definition-and-reference")
     def _(N, V, Qc):
         t = _t(N)
